@@ -40,22 +40,42 @@ def load_known():
 
 
 def parse_playback(out):
-    """harness name -> list of hex strings, from --concrete-playback=print."""
+    """harness name -> list of (check kind, description, [hex values]) from
+    --concrete-playback=print, one entry per generated test."""
     res = {}
-    for m in re.finditer(r"fn kani_concrete_playback_(\w+?)_\d+\(\) \{(.*?)kani::concrete_playback_run", out, re.S):
-        name, body = m.group(1), m.group(2)
+    blocks = re.split(r"Concrete playback unit test for `([\w:]+)`:", out)
+    for k in range(1, len(blocks), 2):
+        name = blocks[k].split("::")[-1]
+        body = blocks[k + 1]
+        m = re.search(r"Check for `(\w+)`: \"(.*)\"", body)
+        kind, desc = (m.group(1), m.group(2)) if m else ("?", "")
+        fm = re.search(r"let concrete_vals: Vec<Vec<u8>> = vec!\[(.*?)\n    \];", body, re.S)
+        if not fm:
+            continue
         vals = []
-        for v in re.finditer(r"vec!\[([\d,\s]*)\]", body):
-            txt = v.group(1).strip()
-            if txt == "" and "Vec<Vec<u8>>" in body[max(0, v.start() - 40):v.start()]:
-                continue
-            bs = [int(x) for x in txt.replace("\n", " ").split(",") if x.strip()]
+        for v in re.finditer(r"vec!\[([\d,\s]*)\]", fm.group(1)):
+            bs = [int(x) for x in v.group(1).replace("\n", " ").split(",") if x.strip()]
             vals.append("".join("%02x" % b for b in bs))
-        res.setdefault(name, vals)
+        res.setdefault(name, []).append((kind, desc, vals))
     return res
 
 
-def native_replay(harness, vals, stage_dir):
+SPURIOUS = ("rust_dealloc must be called", "free argument", "double free", "free called for")
+
+
+def pick_counterexample(entries):
+    """The test generated for a failed user assertion / panic (not a cover
+    witness, not the deallocation-model checks of kani_lib.c)."""
+    for kind, desc, vals in entries:
+        if kind == "cover":
+            continue
+        if any(s in desc for s in SPURIOUS):
+            continue
+        return kind, desc, vals
+    return None
+
+
+def native_replay(harness, vals, stage_dir, features=None):
     """Run the same harness natively (real rust_decimal, std HashMap, regex; no
     stubs) on the counterexample's input values, dev and release profile."""
     results = {}
@@ -64,6 +84,8 @@ def native_replay(harness, vals, stage_dir):
     for prof in ("dev", "release"):
         cmd = ["cargo", "build", "--no-default-features", "--bin", "verif_replay",
                "--target-dir", vlib.NATIVE_TARGET]
+        if features:
+            cmd += ["--features", features]
         if prof == "release":
             cmd.append("--release")
         b = subprocess.run(cmd, cwd=stage_dir, env=env, stdout=subprocess.PIPE, stderr=subprocess.STDOUT, text=True)
@@ -154,12 +176,15 @@ def main():
                     replay_dir = vlib.stage(stage_name + "-replay", "replay", wide=(tier == "thorough"))
                 for h in failing:
                     hr = harness_results[h]
-                    vals = pb.get(h)
-                    if not vals:
+                    pick = pick_counterexample(pb.get(h, []))
+                    if not pick:
                         hr["class"] = "inconclusive"
-                        hr["note"] = "no concrete values from playback"
+                        hr["note"] = ("only deallocation-model checks of kani_lib.c failed (memory-model artefact)"
+                                      if pb.get(h) else "no concrete values from playback")
                         continue
-                    rr = native_replay(h, vals, replay_dir)
+                    vals = pick[2]
+                    hr["failed_assertion"] = pick[1]
+                    rr = native_replay(h, vals, replay_dir, features=g.get("features"))
                     hr["replay"] = {k: {"status": v["status"], "panic": v.get("panic")} for k, v in rr.items()}
                     hr["values"] = vals[:40]
                     statuses = [v["status"] for v in rr.values()]
